@@ -3,17 +3,37 @@ C07 -- chunked proximity / allocation / direction equal the whole-raster result.
 
 Tie: G  `Gen.proximity_dask` (pad expressions, depth order, boundary, fallback, arrays) and
         `Gen.proximity_is_target` are regenerated from /repo; Props/C07.lean proves the halo covers
-        max_distance per axis, NaN halo cells are never targets, the fallback is the whole raster.
-     H  (1) the depth dask is really called with is captured and compared with the generated `pad`
-        evaluated by the driver; (2) real Dask vs real NumPy over chunk compositions, max_distance
-        from fractions of a cell to inf, metrics, modes, target lists, non-square / descending
-        coordinates -- this differential run is also the failing-input search and carries the part
-        of the property that is not a theorem (the sweep on a truncated window).
+        max_distance per axis, NaN halo cells are never targets, the fallback is the whole raster, that the
+        exact nearest target cut at max_distance is the same on the halo window and on the whole raster
+        (`window_exact_eq_whole`), and that the four-sweep itself is NOT window independent
+        (`window_sweep_eq_whole_false`, a 3x4 witness with cells 1x2).
+     H  (1) stream `api`: real Dask vs real NumPy through the public functions over chunk compositions,
+        max_distance from fractions of a cell to inf, metrics, modes, target lists, non-square / descending
+        coordinates; the depth dask is really called with is captured and compared with the generated `pad`
+        evaluated by the driver.
+        (2) stream `window`: a once-compiled copy of the nested `_process_numpy` of the *current* source
+        (closure variables turned into arguments) is run on the whole raster and on every block's halo
+        window (halo = the generated `pad` evaluated by the driver, window clipped at the raster edge and
+        padded with NaN data and NaN coordinates as dask does, small chunks merged as dask does); the three
+        outputs are compared on the block's own cells.  Thousands of random layouts per run plus an
+        exhaustive space (all layouts with few targets x all blocks of all chunkings of small grids).
+        Every difference found is re-run through the public Dask / NumPy API before it is reported, a random
+        sample of the window cases goes through the public API as well (simulated == real), and a sample
+        goes through the Lean model `Prox.run` on the clipped windows (model == kernel on the block cells).
+Oracle (from the property text): public Dask result == public NumPy result.  Differences are classified with a
+brute-force nearest-target search: where Dask reports an exact nearest target and NumPy (the whole-raster
+heuristic sweep) does not, or both report exact nearest targets that are equidistant, the finding is a
+consequence of the sweep heuristic (keys `sweep-heuristic:*`, listed in KNOWN_FINDINGS.txt); anything else
+is `<mode>:differs`.
 Domain guard (from the property): cases whose halo exceeds the raster (dask refuses) are skipped and counted.
 """
+import itertools
 import math
 import multiprocessing as mp
 import os
+import random
+import time
+from fractions import Fraction
 
 import numpy as np
 
@@ -21,6 +41,8 @@ from common import Driver, tok, untok
 
 PROP = "C07"
 MODES = ["proximity", "allocation", "direction"]
+KEY_INEXACT = "sweep-heuristic:numpy-inexact-dask-exact"
+KEY_TIE = "sweep-heuristic:equidistant-tie"
 
 
 def random_composition(rng, n):
@@ -72,20 +94,29 @@ def gen_case(rng):
                 dtype=rng.choice(["float64", "float32", "int32"]))
 
 
-def build(c, backend):
-    import dask.array as da
-    import xarray as xr
+def case_array(c):
     h, w = c["h"], c["w"]
     a = np.array([untok(t) for t in c["vals"]], dtype=np.float64).reshape(h, w)
     if c["dtype"].startswith("int"):
         a = np.nan_to_num(a, nan=0.0)
-    a = a.astype(c["dtype"])
-    xs = c["x0"] + np.arange(w) * c["sx"]
-    ys = c["y0"] + np.arange(h) * c["sy"]
+    return a.astype(c["dtype"])
+
+
+def case_coords(c):
+    xs = c["x0"] + np.arange(c["w"]) * c["sx"]
+    ys = c["y0"] + np.arange(c["h"]) * c["sy"]
     if c["desc_x"]:
         xs = xs[::-1].copy()
     if c["desc_y"]:
         ys = ys[::-1].copy()
+    return xs, ys
+
+
+def build(c, backend):
+    import dask.array as da
+    import xarray as xr
+    a = case_array(c)
+    xs, ys = case_coords(c)
     data = da.from_array(a, chunks=(tuple(c["rch"]), tuple(c["cch"]))) if backend == "dask" else a
     return xr.DataArray(data, dims=["y", "x"], coords={"y": ys, "x": xs})
 
@@ -135,45 +166,603 @@ def run_real(c):
     return out
 
 
-def work(cases):
-    return [run_real(c) for c in cases]
-
-
 def same(a, b):
     return (a != a and b != b) or a == b
 
 
+def differing_cells(c, res):
+    n, d = res["numpy"], res["dask"]
+    if n[0] != "ok" or d[0] != "ok":
+        return []
+    return [(i, j) for i in range(c["h"]) for j in range(c["w"]) if not same(n[1][i][j], d[1][i][j])]
+
+
+def run_real_full(c):
+    """one case through the public API; when the two backends differ, the two other modes as well (needed to
+    say whether the difference is the sweep heuristic's)"""
+    res = run_real(c)
+    if differing_cells(c, res) and c["metric"] in ("EUCLIDEAN", "MANHATTAN"):
+        res["modes"] = {c["mode"]: dict(numpy=res["numpy"], dask=res["dask"])}
+        for m in MODES:
+            if m != c["mode"]:
+                o = run_real(dict(c, mode=m))
+                res["modes"][m] = dict(numpy=o["numpy"], dask=o["dask"])
+    return res
+
+
+def work(cases):
+    return [run_real_full(c) for c in cases]
+
+
+# ---------------------------------------------------------------- classification of a difference (oracle side)
+def compass(x1, y1, x2, y2):
+    """bearing from (x1,y1) to (x2,y2), +y is south (the library's convention), 0 = same point, north = 360"""
+    if x1 == x2 and y1 == y2:
+        return 0.0
+    b = math.degrees(math.atan2(x2 - x1, -(y2 - y1))) % 360.0
+    return 360.0 if b == 0 else b
+
+
+def is_target(v, tv):
+    if not tv:
+        return v == v and not math.isinf(v) and v != 0
+    return any(v == t for t in tv)
+
+
+def nearest_targets(c, a, xs, ys, i, j):
+    """(exact nearest distance or None when none within max_distance, the list of target cells at that distance)"""
+    best, cells = None, []
+    for ti in range(c["h"]):
+        for tj in range(c["w"]):
+            if not is_target(float(a[ti, tj]), c["targets"]):
+                continue
+            dx, dy = abs(float(xs[tj]) - float(xs[j])), abs(float(ys[ti]) - float(ys[i]))
+            d = dx + dy if c["metric"] == "MANHATTAN" else math.hypot(dx, dy)
+            if best is None or d < best * (1 - 1e-9):
+                best, cells = d, [(ti, tj)]
+            elif abs(d - best) <= 1e-9 * max(1.0, best):
+                cells.append((ti, tj))
+    if best is None:
+        return None, []
+    md = c["max_distance"]
+    if md is not None and best > md * (1 + 1e-9):
+        return None, []
+    return best, cells
+
+
+def names_exact(c, a, xs, ys, i, j, e, cells, p, al, di):
+    """do proximity p, allocation al, direction di at (i, j) describe one of the exact nearest targets?"""
+    if e is None:
+        return p != p and al != al and di != di
+    if p != p or abs(p - e) > 1e-5 * max(1.0, e):
+        return False
+    for (ti, tj) in cells:
+        v = float(np.float32(a[ti, tj]))
+        b = compass(float(xs[j]), float(ys[i]), float(xs[tj]), float(ys[ti]))
+        if al == v and abs(di - b) <= 1e-3:
+            return True
+    return False
+
+
+def classify(c, res):
+    """key of a Dask != NumPy difference: one of the two sweep-heuristic keys when the brute-force search explains
+    every differing cell, else None"""
+    if c["metric"] not in ("EUCLIDEAN", "MANHATTAN") or "modes" not in res:
+        return None
+    ms = res["modes"]
+    if any(ms[m][b][0] != "ok" for m in MODES for b in ("numpy", "dask")):
+        return None
+    a = case_array(c).astype(np.float64)
+    xs, ys = case_coords(c)
+    cells = differing_cells(c, res)
+    if not cells:
+        return None
+    inexact = False
+    for (i, j) in cells:
+        e, near = nearest_targets(c, a, xs, ys, i, j)
+        dn = [ms[m]["dask"][1][i][j] for m in MODES]
+        nn = [ms[m]["numpy"][1][i][j] for m in MODES]
+        if not names_exact(c, a, xs, ys, i, j, e, near, *dn):
+            return None                      # the Dask side is not an exact nearest target: not this finding
+        if names_exact(c, a, xs, ys, i, j, e, near, *nn):
+            continue                         # both exact, different equidistant targets
+        if e is not None and (nn[0] != nn[0] or nn[0] > e * (1 + 1e-5)):
+            inexact = True                   # the whole-raster sweep missed the nearest target
+            continue
+        return None
+    return KEY_INEXACT if inexact else KEY_TIE
+
+
 def judge(c, res):
-    """returns (failure text or None, tags)"""
+    """returns (failure text or None, tags, key)"""
     tags = [f"mode:{c['mode']}", f"metric:{c['metric']}", f"blocks:{min(9, len(c['rch']) * len(c['cch']))}",
             "maxd:" + ("inf" if c["max_distance"] is None else "finite")]
     n, d = res["numpy"], res["dask"]
     if n[0] != "ok":
         tags.append("numpy-raised:" + n[0])
-        return None, tags
+        return None, tags, None
     if d[0] != "ok":
         if "overlapping depth" in d[1] and "larger than your array" in d[1]:
             tags.append("skipped:halo-exceeds-raster")     # the domain guard of the property
-            return None, tags
-        return f"dask raised {d[0]}: {d[1]} while numpy returned a value", tags
+            return None, tags, None
+        return f"dask raised {d[0]}: {d[1]} while numpy returned a value", tags, f"{c['mode']}:raises"
     if not d[2]:
-        return "result of the Dask-backed call is not Dask-backed", tags
+        return "result of the Dask-backed call is not Dask-backed", tags, f"{c['mode']}:differs"
     nv, dv = n[1], d[1]
-    diffs = [(i, j) for i in range(c["h"]) for j in range(c["w"]) if not same(nv[i][j], dv[i][j])]
+    diffs = differing_cells(c, res)
     if not diffs:
-        return None, tags
+        return None, tags, None
     i, j = diffs[0]
+    key = classify(c, res) or f"{c['mode']}:differs"
+    why = {KEY_INEXACT: " [Dask names the exact nearest target, the whole-raster NumPy sweep does not]",
+           KEY_TIE: " [both name an exact nearest target, two equidistant ones]"}.get(key, "")
     return (f"{c['mode']} differs at {(i, j)}: numpy {nv[i][j]} vs dask {dv[i][j]} ({len(diffs)} cells), "
-            f"chunks {c['rch']}x{c['cch']} max_distance={c['max_distance']} metric={c['metric']}"), tags
+            f"chunks {c['rch']}x{c['cch']} max_distance={c['max_distance']} metric={c['metric']}" + why), tags, key
 
 
+# ---------------------------------------------------------------- stream `window`: fast window-vs-whole experiment
+FREE = ["max_distance", "target_values", "distance_metric", "process_mode"]
+_KERNEL = {}
+
+
+def load_kernel():
+    """a once-compiled copy of the nested `_process_numpy` of the current xrspatial/proximity.py with its closure
+    variables passed as arguments (the public functions re-jit the closure on every call, ~1 s)"""
+    if "k" in _KERNEL:
+        return _KERNEL["k"]
+    import ast
+    import builtins
+    import importlib
+    import inspect
+    px = importlib.import_module("xrspatial.proximity")
+    tree = ast.parse(inspect.getsource(px))
+    fns = [nd for nd in ast.walk(tree) if isinstance(nd, ast.FunctionDef) and nd.name == "_process_numpy"]
+    if len(fns) != 1:
+        raise RuntimeError(f"expected one nested _process_numpy in xrspatial/proximity.py, found {len(fns)}")
+    fn = fns[0]
+    fn.decorator_list = []
+    fn.name = "_process_numpy_params"
+    for a in FREE:
+        fn.args.args.append(ast.arg(arg=a))
+    mod = ast.Module(body=[fn], type_ignores=[])
+    ast.fix_missing_locations(mod)
+    code = compile(mod, "<copy of _process_numpy>", "exec")
+    ns = dict(px.__dict__)
+    exec(code, ns)
+    f = ns["_process_numpy_params"]
+    unknown = [nm for nm in f.__code__.co_names if nm not in ns and not hasattr(builtins, nm)
+               and not any(hasattr(ns.get(g), nm) for g in ("np", "math"))]
+    if unknown:
+        raise RuntimeError(f"_process_numpy uses closure variables this harness does not pass: {unknown}")
+    _KERNEL["k"] = (px, px.ngjit(f))
+    return _KERNEL["k"]
+
+
+def kernel3(px, kern, img, xs, ys, maxd, tv, metric):
+    md = np.inf if maxd is None else maxd
+    return [kern(img, xs, ys, md, tv, metric, m) for m in (px.PROXIMITY, px.ALLOCATION, px.DIRECTION)]
+
+
+def halo_window(a, r0, r1, c0, c1, py, px_):
+    """what da.map_overlap(depth=(py, px_), boundary=nan) hands to the block [r0,r1) x [c0,c1)"""
+    H, W = a.shape
+    out = np.full((r1 - r0 + 2 * py, c1 - c0 + 2 * px_), np.nan, dtype=np.float64)
+    lo_r, hi_r = max(0, r0 - py), min(H, r1 + py)
+    lo_c, hi_c = max(0, c0 - px_), min(W, c1 + px_)
+    out[lo_r - (r0 - py):hi_r - (r0 - py), lo_c - (c0 - px_):hi_c - (c0 - px_)] = a[lo_r:hi_r, lo_c:hi_c]
+    return out
+
+
+def effective_chunks(depth, chunks):
+    """dask merges chunks smaller than the depth (overlap(..., allow_rechunk=True)); None = dask refuses"""
+    from dask.array.overlap import ensure_minimum_chunksize
+    if depth == 0:
+        return tuple(chunks)
+    try:
+        return tuple(ensure_minimum_chunksize(depth, tuple(chunks)))
+    except ValueError:
+        return None
+
+
+def bounds(chunks):
+    out, s = [], 0
+    for k in chunks:
+        out.append((s, s + k))
+        s += k
+    return out
+
+
+MAX_KINDS = ["int", "half", "sqrth", "sqrtq", "raw"]
+
+
+def max_of(kind, k, unit):
+    """(python float handed to max_distance=, max^2 in unit^2 as a Fraction)"""
+    if kind == "int":
+        return float(k) * unit, Fraction(k * k)
+    if kind == "half":
+        return (k + 0.5) * unit, Fraction(2 * k + 1, 2) ** 2
+    if kind == "sqrth":
+        return math.sqrt(k + 0.5) * unit, Fraction(2 * k + 1, 2)
+    if kind == "sqrtq":
+        return math.sqrt(k + 0.25) * unit, Fraction(4 * k + 1, 4)
+    v = k / 100.0                       # raw: k hundredths of a unit
+    return v * unit, Fraction(v * unit) ** 2 / Fraction(unit) ** 2
+
+
+def window_case(h, w, ux, uy, unit, metric, kind, k, cells, rch, cch, nan_cells=(), explicit=False):
+    """a case in the format of `gen_case` (so it replays through the public API) + the exact description the
+    model needs; rasters carry unique values so ALLOCATION identifies the target"""
+    md, _ = max_of(kind, k, unit)
+    vals = [0.0] * (h * w)
+    targets = []
+    if explicit:
+        vals = [float(i + 1) for i in range(h * w)]
+        targets = sorted(float(i + 1) for i in cells)
+    else:
+        for i in cells:
+            vals[i] = float(i + 1)
+    for i in nan_cells:
+        if i not in cells:
+            vals[i] = float("nan")
+    return dict(h=h, w=w, sx=ux * unit, sy=uy * unit, desc_y=False, desc_x=False, x0=0.0, y0=0.0, metric=metric,
+                vals=[tok(v) for v in vals], targets=targets, max_distance=md, mode="proximity",
+                rch=list(rch), cch=list(cch), sched=["synchronous", None], dtype="float64",
+                stream="window", ux=ux, uy=uy, unit=unit, mx=[kind, k])
+
+
+CELLS = [(1, 1), (1, 1), (1, 1), (1, 2), (1, 2), (1, 2), (2, 1), (2, 1), (1, 3), (3, 1), (2, 3), (3, 2)]
+
+
+def gen_window(rng, hmax):
+    h, w = rng.randrange(3, hmax + 1), rng.randrange(3, hmax + 1)
+    ux, uy = rng.choice(CELLS)
+    unit = rng.choice([1.0, 1.0, 0.5, 1.5, 2.0])
+    metric = rng.choice(["EUCLIDEAN", "EUCLIDEAN", "MANHATTAN"])
+    kind = rng.choice(MAX_KINDS)
+    if kind in ("int", "half"):
+        k = rng.randrange(0, 5)
+    elif kind in ("sqrth", "sqrtq"):
+        k = rng.randrange(0, 21)
+    else:
+        k = int(round(rng.uniform(0.6, 4.6) * min(ux, uy) * 100))
+    nt = rng.randrange(1, 8)
+    cells = rng.sample(range(h * w), min(nt, h * w))
+    nan_cells = rng.sample(range(h * w), rng.choice([0, 0, 0, 1, 2]))
+    return window_case(h, w, ux, uy, unit, metric, kind, k, cells, random_composition(rng, h), random_composition(rng, w),
+                       nan_cells=nan_cells, explicit=rng.random() < 0.15)
+
+
+def pad_request(c):
+    return f"proxpad maxd={tok(c['max_distance'])} csx={tok(c['sx'])} csy={tok(c['sy'])}"
+
+
+def blocks_of(c, pad):
+    """row and column ranges of the blocks dask really maps over, or None when the halo exceeds the raster"""
+    er, ec = effective_chunks(pad[0], c["rch"]), effective_chunks(pad[1], c["cch"])
+    if er is None or ec is None:
+        return None
+    return bounds(er), bounds(ec)
+
+
+def window_eval(c, pad, rects=None):
+    """whole-raster run vs the run on every block's halo window.  Returns dict(diff=[(mode, rect, cell)], truncating=bool,
+    sim=<the simulated Dask proximity>, whole=<NumPy proximity>)"""
+    px, kern = load_kernel()
+    a = case_array(c).astype(np.float64)
+    xs1, ys1 = case_coords(c)
+    H, W = a.shape
+    xs = np.tile(xs1, H).reshape(H, W)
+    ys = np.repeat(ys1, W).reshape(H, W)
+    tv = np.asarray(c["targets"], dtype=np.float64) if c["targets"] else np.asarray([])
+    metric = px.DISTANCE_METRICS[c["metric"]]
+    whole = kernel3(px, kern, a, xs, ys, c["max_distance"], tv, metric)
+    py, pxx = pad
+    if rects is None:
+        b = blocks_of(c, pad)
+        if b is None:
+            return dict(skipped=True)
+        rects = [(r0, r1, c0, c1) for (r0, r1) in b[0] for (c0, c1) in b[1]]
+    sims = [np.full((H, W), np.nan), np.full((H, W), np.nan), np.full((H, W), np.nan)]
+    diff, trunc = [], False
+    tmask = np.vectorize(lambda v: is_target(float(v), c["targets"]))(a)
+    for (r0, r1, c0, c1) in rects:
+        wa = halo_window(a, r0, r1, c0, c1, py, pxx)
+        outside = tmask.copy()
+        outside[max(0, r0 - py):r1 + py, max(0, c0 - pxx):c1 + pxx] = False
+        trunc = trunc or bool(outside.any())
+        res = kernel3(px, kern, wa, halo_window(xs, r0, r1, c0, c1, py, pxx), halo_window(ys, r0, r1, c0, c1, py, pxx),
+                      c["max_distance"], tv, metric)
+        for m in range(3):
+            sub = res[m][py:py + r1 - r0, pxx:pxx + c1 - c0]
+            ref = whole[m][r0:r1, c0:c1]
+            sims[m][r0:r1, c0:c1] = sub
+            if not np.array_equal(ref, sub, equal_nan=True):
+                bad = np.argwhere(~((ref == sub) | (np.isnan(ref) & np.isnan(sub))))[0]
+                diff.append((MODES[m], [r0, r1, c0, c1], [int(bad[0]) + r0, int(bad[1]) + c0]))
+    return dict(diff=diff, truncating=trunc, whole=[x.astype(np.float64) for x in whole], sim=sims)
+
+
+def chunking_for(h, w, rect):
+    r0, r1, c0, c1 = rect
+    return [k for k in (r0, r1 - r0, h - r1) if k], [k for k in (c0, c1 - c0, w - c1) if k]
+
+
+def possible_ranges(n, depth):
+    """[a, b) that are a block of some chunking of an axis of length n after dask merged chunks below `depth`"""
+    d = max(depth, 1)
+    ok = lambda k: k == 0 or k >= d          # noqa: E731  a remainder that can be cut into chunks >= depth
+    return [(a, b) for a in range(n) for b in range(a + 1, n + 1) if (b - a >= d or (a == 0 and b == n)) and ok(a) and ok(n - b)]
+
+
+EXH_QUICK = [  # (h, w, ux, uy, metric, [(kind, k)], max targets)
+    (3, 4, 1, 2, "EUCLIDEAN", [("raw", 290), ("sqrth", 8), ("half", 1), ("int", 2)], 3),
+    (4, 4, 1, 1, "EUCLIDEAN", [("half", 1), ("sqrtq", 2), ("raw", 145)], 3),
+    (4, 3, 2, 1, "MANHATTAN", [("half", 1), ("int", 2)], 3),
+]
+EXH_THOROUGH = EXH_QUICK + [
+    (4, 4, 1, 2, "EUCLIDEAN", [("raw", 290), ("sqrth", 8), ("sqrtq", 8), ("half", 2)], 4),
+    (4, 4, 2, 1, "EUCLIDEAN", [("raw", 290), ("sqrth", 8)], 4),
+    (3, 5, 1, 2, "EUCLIDEAN", [("raw", 290), ("raw", 285)], 4),
+    (4, 4, 1, 1, "EUCLIDEAN", [("int", 1), ("half", 1), ("int", 2), ("sqrtq", 2), ("raw", 145), ("raw", 240)], 4),
+    (5, 5, 1, 1, "EUCLIDEAN", [("half", 1), ("int", 2), ("raw", 145)], 3),
+    (4, 4, 1, 1, "MANHATTAN", [("int", 1), ("int", 2), ("half", 1)], 4),
+    (5, 5, 1, 1, "EUCLIDEAN", [("raw", 240), ("sqrtq", 2)], 4),
+    (6, 6, 1, 1, "EUCLIDEAN", [("raw", 240), ("raw", 145)], 3),
+    (4, 5, 1, 3, "EUCLIDEAN", [("raw", 430), ("raw", 330)], 3),
+    (4, 4, 1, 2, "MANHATTAN", [("int", 3), ("half", 3), ("int", 4)], 4),
+]
+
+
+def exhaustive_jobs(tier):
+    jobs = []
+    for (h, w, ux, uy, metric, maxes, nt) in (EXH_QUICK if tier == "quick" else EXH_THOROUGH):
+        for (kind, k) in maxes:
+            jobs.append((h, w, ux, uy, metric, kind, k, nt))
+    return jobs
+
+
+def window_worker(args):
+    """(a) random window cases, (b) exhaustive jobs; pads were computed by the Lean driver from the generated `pad`"""
+    cases, pads, jobs, job_pads = args
+    t0 = time.time()
+    out = dict(cases=[], exh=[], errors=[])
+    try:
+        load_kernel()
+    except Exception as ex:  # noqa: BLE001
+        out["errors"].append(f"{type(ex).__name__}: {ex}")
+        return out
+    for c, pad in zip(cases, pads):
+        ev = window_eval(c, pad)
+        if ev.get("skipped"):
+            out["cases"].append(dict(skipped=True))
+            continue
+        out["cases"].append(dict(diff=ev["diff"], truncating=ev["truncating"],
+                                 whole=[x.tolist() for x in ev["whole"]], sim=[x.tolist() for x in ev["sim"]]))
+    for job, pad in zip(jobs, job_pads):
+        h, w, ux, uy, metric, kind, k, nt = job
+        rects = [(r0, r1, c0, c1) for (r0, r1) in possible_ranges(h, pad[0]) for (c0, c1) in possible_ranges(w, pad[1])
+                 if not (r0 == 0 and r1 == h and c0 == 0 and c1 == w)]
+        n_layouts, found = 0, []
+        if pad[0] <= h and pad[1] <= w:
+            for n in range(1, nt + 1):
+                for cells in itertools.combinations(range(h * w), n):
+                    c = window_case(h, w, ux, uy, 1.0, metric, kind, k, cells, [h], [w])
+                    ev = window_eval(c, pad, rects=rects)
+                    n_layouts += 1
+                    if ev["diff"]:
+                        mode, rect, cell = ev["diff"][0]
+                        rch, cch = chunking_for(h, w, rect)
+                        found.append(dict(case=dict(c, rch=rch, cch=cch, mode=mode), n=len(ev["diff"]), cell=cell))
+        out["exh"].append(dict(job=list(job), pad=list(pad), layouts=n_layouts, rects=len(rects), found=found))
+    out["wall"] = time.time() - t0
+    return out
+
+
+def model_requests(c, pad):
+    """Lean model on the whole raster and on the clipped window of up to three blocks (None when the threshold of
+    this case is not exactly representable in the model)"""
+    kind, k = c["mx"]
+    _, m2 = max_of(kind, k, c["unit"])
+    if not (m2.denominator == 1 or (m2 - math.floor(m2)) <= Fraction(1, 2)):
+        return None
+    if (2 * m2).denominator == 1:
+        m = int(2 * m2)
+        for aa in range(c["w"]):
+            for bb in range(c["h"]):
+                d = (aa * c["ux"] + bb * c["uy"]) ** 2 if c["metric"] == "MANHATTAN" else (aa * c["ux"]) ** 2 + (bb * c["uy"]) ** 2
+                if d == m or (kind == "raw" and 2 * d == m):
+                    return None                  # decided by float rounding in the real code
+    if kind == "raw":
+        for aa in range(c["w"]):
+            for bb in range(c["h"]):
+                d = (aa * c["ux"] + bb * c["uy"]) ** 2 if c["metric"] == "MANHATTAN" else (aa * c["ux"]) ** 2 + (bb * c["uy"]) ** 2
+                if abs(float(m2) - d) < 1e-6 or abs(2 * float(m2) - d) < 1e-6:
+                    return None
+    b = blocks_of(c, pad)
+    if b is None:
+        return None
+    mmax = str(math.ceil(2 * m2))
+    vals = c["vals"]
+    xs1, ys1 = case_coords(c)
+
+    def req(r0, r1, c0, c1):
+        hh, ww = r1 - r0, c1 - c0
+        flat = ",".join(vals[i * c["w"] + j] for i in range(r0, r1) for j in range(c0, c1))
+        return (f"prox H={hh} W={ww} sx={c['ux']} sy={c['uy']} metric={'m' if c['metric'] == 'MANHATTAN' else 'e'} max={mmax} "
+                f"vals={hh}x{ww}:{flat} tv={','.join(tok(t) for t in c['targets'])} "
+                f"xs={','.join(tok(x) for x in xs1[c0:c1])} ys={','.join(tok(y) for y in ys1[r0:r1])}")
+
+    rects = [(r0, r1, c0, c1) for (r0, r1) in b[0] for (c0, c1) in b[1]][:3]
+    wins = [(max(0, r0 - pad[0]), min(c["h"], r1 + pad[0]), max(0, c0 - pad[1]), min(c["w"], c1 + pad[1])) for (r0, r1, c0, c1) in rects]
+    return [req(0, c["h"], 0, c["w"])] + [req(*wn) for wn in wins], rects, wins
+
+
+def parse_prox_reply(line):
+    from common import parse_grid
+    parts = dict(p.split("=", 1) for p in line.split(";"))
+    P = parse_grid(parts["P"], conv=lambda t: None if t == "nan" else int(t))
+    A = parse_grid(parts["A"], conv=int)
+    return P, A
+
+
+def model_vs_kernel(c, rects, wins, replies, ev):
+    """differences between the Lean model (whole / clipped windows) and the kernel (whole / padded windows)"""
+    from common import close
+    a = case_array(c).astype(np.float64)
+    out = []
+
+    def cmp(P, A, ww, off, kp, ka, cells, what):
+        for (i, j) in cells:
+            mp, ma = P[i - off[0]][j - off[1]], A[i - off[0]][j - off[1]]
+            gp, ga = kp[i][j], ka[i][j]
+            exp = float("nan") if mp is None else math.sqrt(mp) * c["unit"]
+            if not close(gp, exp, rel=1e-6, abs_=0.0):
+                out.append(f"{what} ({i},{j}) proximity kernel={gp} model={exp}")
+            if ma < 0:
+                if ga == ga:
+                    out.append(f"{what} ({i},{j}) allocation kernel={ga} model=NaN")
+            else:
+                tr, tc = divmod(ma, ww)
+                v = float(np.float32(a[tr + off[0], tc + off[1]]))
+                if ga != v:
+                    out.append(f"{what} ({i},{j}) allocation kernel={ga} model=value {v}")
+            if len(out) > 3:
+                return
+
+    try:
+        P, A = parse_prox_reply(replies[0])
+    except Exception:  # noqa: BLE001
+        return [f"model reply: {replies[0][:100]}"]
+    cmp(P, A, c["w"], (0, 0), ev["whole"][0], ev["whole"][1], [(i, j) for i in range(c["h"]) for j in range(c["w"])], "whole")
+    for rect, wn, rep in zip(rects, wins, replies[1:]):
+        try:
+            P, A = parse_prox_reply(rep)
+        except Exception:  # noqa: BLE001
+            out.append(f"model reply: {rep[:100]}")
+            continue
+        cells = [(i, j) for i in range(rect[0], rect[1]) for j in range(rect[2], rect[3])]
+        cmp(P, A, wn[3] - wn[2], (wn[0], wn[2]), ev["sim"][0], ev["sim"][1], cells, f"window of block {rect}")
+    return out
+
+
+def window_stream(r):
+    """returns the list of cases that must go through the public API: (case, why, simulated results or None)"""
+    quick = r.tier == "quick"
+    n_rand = {"quick": 6000, "thorough": 60000}[r.tier]
+    nproc = 4 if quick else 8
+    cases = [gen_window(r.rng, 9 if quick else 10) for _ in range(n_rand)]
+    jobs = exhaustive_jobs(r.tier)
+    job_cases = [window_case(h, w, ux, uy, 1.0, metric, kind, k, [0], [h], [w]) for (h, w, ux, uy, metric, kind, k, nt) in jobs]
+    drv = Driver()
+    reps = drv.ask([pad_request(c) for c in cases + job_cases])
+    pads, bad_pad = [], 0
+    for c, rep in zip(cases + job_cases, reps):
+        try:
+            p = tuple(int(x) for x in rep.split(","))
+            if len(p) != 2 or min(p) < 0:
+                raise ValueError(rep)
+        except ValueError:
+            # the generated pad is unusable (translator gave up on the halo expressions): the proof side is broken anyway;
+            # simulate with the documented halo so that the api sample shows whether the real code still agrees with it
+            if bad_pad == 0:
+                r.disagree("pad", c, "n/a", f"generated pad evaluates to {rep!r}")
+            bad_pad += 1
+            p = (int(c["max_distance"] / c["sy"] + 0.5), int(c["max_distance"] / c["sx"] + 0.5))
+        pads.append(p)
+    case_pads, job_pads = pads[:len(cases)], pads[len(cases):]
+    # exhaustive jobs are spread by cost (largest first), random cases round-robin
+    order = sorted(range(len(jobs)), key=lambda i: -(jobs[i][0] * jobs[i][1]) ** jobs[i][7])
+    parts = []
+    for w_ in range(nproc):
+        ji = order[w_::nproc]
+        parts.append((cases[w_::nproc], case_pads[w_::nproc], [jobs[i] for i in ji], [job_pads[i] for i in ji]))
+    with mp.get_context("fork").Pool(nproc) as pool:
+        outs = pool.map(window_worker, parts)
+    to_api = []
+    for o in outs:
+        for e in o["errors"]:
+            r.disagree("window-kernel", "copy of _process_numpy", e, "expected: the nested kernel compiles with its four closure variables as arguments")
+    if any(o["errors"] for o in outs):
+        return to_api
+    results = [None] * len(cases)
+    for w_, o in enumerate(outs):
+        for i, res in enumerate(o["cases"]):
+            results[w_ + i * nproc] = res
+    n_model = {"quick": 800, "thorough": 8000}[r.tier]     # driver requests (about 3 per case)
+    n_api = {"quick": 24, "thorough": 96}[r.tier]
+    model_reqs, model_meta = [], []
+    diffs = []
+    api_pool = []
+    for idx, (c, pad, res) in enumerate(zip(cases, case_pads, results)):
+        tags = ["stream:window", f"w-cells:{c['ux']}x{c['uy']}", f"w-metric:{c['metric']}", f"w-max:{c['mx'][0]}"]
+        if res is None or res.get("skipped"):
+            r.case(c, nontrivial=False, tags=tags + ["skipped:halo-exceeds-raster"])
+            continue
+        nontriv = res["truncating"] and any(v == v and v != 0 for row in res["whole"][0] for v in row)
+        if res["truncating"]:
+            tags.append("w-truncating-window")
+        r.case({k: c[k] for k in ("h", "w", "sx", "sy", "metric", "vals", "targets", "max_distance", "rch", "cch")},
+               desc=None, nontrivial=nontriv, tags=tags)
+        if res["diff"]:
+            r.tag("w-difference")
+            diffs.append((dict(c, mode=res["diff"][0][0]), res))
+        elif res["truncating"]:
+            api_pool.append((c, res))
+        if len(model_reqs) < n_model and not c["targets"]:
+            mr = model_requests(c, pad)
+            if mr is not None:
+                model_meta.append((c, mr[1], mr[2], len(mr[0]), res))
+                model_reqs.extend(mr[0])
+    # model == kernel on whole rasters and on block cells of clipped windows
+    if model_reqs:
+        reps = drv.ask(model_reqs)
+        pos = 0
+        for (c, rects, wins, n, res) in model_meta:
+            bad = model_vs_kernel(c, rects, wins, reps[pos:pos + n], res)
+            pos += n
+            r.tag("w-model-compared")
+            if bad:
+                r.disagree("window-model", c, "kernel (padded window)", "; ".join(bad[:3]))
+    # exhaustive spaces
+    spaces = []
+    for o in outs:
+        for e in o["exh"]:
+            h, w, ux, uy, metric, kind, k, nt = e["job"]
+            spaces.append(f"{h}x{w} cells {ux}x{uy} {metric} max {kind}:{k} <= {nt} targets: {e['layouts']} layouts x {e['rects']} blocks")
+            r.tag("w-exhaustive-layouts", e["layouts"])
+            r.evaluations += e["layouts"]
+            for f in e["found"]:
+                r.tag("w-difference")
+                diffs.append((f["case"], None))
+    r.exhaustive = "window stream: " + "; ".join(sorted(spaces))
+    # what goes through the public API: every difference (smallest first, capped) and a random sample of the rest
+    diffs.sort(key=lambda d: (d[0]["h"] * d[0]["w"], sum(1 for t in d[0]["vals"] if t not in ("0", "nan")), str(d[0]["vals"])))
+    cap = {"quick": 10, "thorough": 40}[r.tier]
+    for c, res in diffs[:cap]:
+        to_api.append((c, "difference", res))
+    if len(diffs) > cap:
+        r.tag("w-difference-not-replayed-through-api", len(diffs) - cap)
+    r.rng.shuffle(api_pool)
+    for c, res in api_pool[:n_api]:
+        to_api.append((dict(c, mode=r.rng.choice(MODES)), "sample", res))
+    return to_api
+
+
+# ---------------------------------------------------------------- run
 def run(r, n_override=None):
     n = n_override or {"quick": 64, "thorough": 640}[r.tier]
-    r.rule = ("random rasters 2..8 x 2..8, 1-5 targets (+NaN cell, explicit target lists), cell sizes incl. x != y, "
+    r.rule = ("stream api: random rasters 2..8 x 2..8, 1-5 targets (+NaN cell, explicit target lists), cell sizes incl. x != y, "
               "ascending/descending coordinates with offsets, metrics EUCLIDEAN/MANHATTAN/GREAT_CIRCLE, max_distance from "
               "0.3 cell to the raster diagonal and inf, three output modes, random chunk compositions, schedulers "
-              "synchronous/threads; non-trivial = more than one block and at least one non-NaN non-target cell")
-    cases = [b["case"] for b in r.corpus()] + [gen_case(r.rng) for _ in range(n)]
+              "synchronous/threads; non-trivial = more than one block and at least one non-NaN non-target cell. "
+              "stream window: rasters 3..9 x 3..9 (thorough ..10), cells 1x1 1x2 2x1 1x3 3x1 2x3 3x2 times unit 0.5..2, 1-7 targets with "
+              "unique values (+NaN cells, explicit lists), max_distance k, k+1/2, sqrt(k+1/2), sqrt(k+1/4) and decimals, random chunk "
+              "compositions (merged as dask merges them), whole-raster kernel vs kernel on each halo window, three modes; "
+              "non-trivial = some window leaves a target outside and some cell has a non-zero distance; plus the exhaustive "
+              "spaces listed under exhaustive_space (all layouts with few targets x every block of every chunking)")
+    extra = window_stream(r)
+    cases = [b["case"] for b in r.corpus()] + [gen_case(r.rng) for _ in range(n)] + [c for (c, _, _) in extra]
+    sims = [None] * (len(cases) - len(extra)) + [(why, res) for (_, why, res) in extra]
     nproc = min(16, os.cpu_count() or 4)
     chunks = [cases[i::nproc] for i in range(nproc)]
     with mp.get_context("fork").Pool(nproc) as pool:
@@ -185,21 +774,34 @@ def run(r, n_override=None):
     pad_reqs, pad_cases = [], []
     for k in sorted(ordered):
         c, res = ordered[k]
-        bad, tags = judge(c, res)
+        bad, tags, key = judge(c, res)
         nontriv = len(c["rch"]) * len(c["cch"]) > 1 and res["numpy"][0] == "ok" and \
             any(v == v and v != 0 for row in res["numpy"][1] for v in row)
-        r.case(c, desc=c if k < 3 else None, nontrivial=nontriv, tags=tags)
+        sim = sims[k]
+        pub = {kk: c[kk] for kk in c if kk not in ("stream", "ux", "uy", "unit", "mx")}
+        r.case(pub, desc=pub if k < 3 else None, nontrivial=nontriv, tags=tags + (["api:window-" + sim[0]] if sim else []))
         if bad:
-            r.fail(f"{c['mode']}:{'raises' if 'raised' in bad else 'differs'}", bad, c)
+            r.fail(key, bad, pub)
+        if sim:
+            why, simres = sim
+            if why == "difference" and not bad:
+                r.disagree("window-sim", pub, "public Dask == public NumPy",
+                           "simulated halo windows differ from the whole-raster kernel on this case")
+            if simres is not None and res["numpy"][0] == "ok" and res["dask"][0] == "ok" and c["mode"] in MODES:
+                m = MODES.index(c["mode"])
+                if not np.array_equal(np.array(res["numpy"][1]), np.array(simres["whole"][m]), equal_nan=True):
+                    r.disagree("window-sim", pub, "public NumPy result", "copy of the kernel on the whole raster differs")
+                if not np.array_equal(np.array(res["dask"][1]), np.array(simres["sim"][m]), equal_nan=True):
+                    r.disagree("window-sim", pub, "public Dask result", "kernel on simulated halo windows differs")
         seen = res.get("seen", {})
         if seen.get("depth") is not None:
             if seen.get("boundary") != "nan":
-                r.disagree("wiring", c, f"boundary={seen.get('boundary')}", "model: NaN boundary")
+                r.disagree("wiring", pub, f"boundary={seen.get('boundary')}", "model: NaN boundary")
             if any(ch != [c["rch"], c["cch"]] for ch in seen.get("chunks", [])) and tuple(seen["depth"]) != (0, 0):
-                r.disagree("wiring", c, f"chunks of mapped arrays {seen.get('chunks')}", "model: all chunked like the raster")
+                r.disagree("wiring", pub, f"chunks of mapped arrays {seen.get('chunks')}", "model: all chunked like the raster")
             if c["max_distance"] is not None and tuple(seen["depth"]) != (0, 0):
-                pad_reqs.append(f"proxpad maxd={tok(c['max_distance'])} csx={tok(c['sx'])} csy={tok(c['sy'])}")
-                pad_cases.append((c, seen["depth"]))
+                pad_reqs.append(pad_request(c))
+                pad_cases.append((pub, seen["depth"]))
     replies = Driver().ask(pad_reqs)
     for (c, depth), rep in zip(pad_cases, replies):
         r.tag("pad-compared")
@@ -213,9 +815,9 @@ def search(r):
 
 def replay(r, body):
     c = body["case"]
-    bad, _ = judge(c, run_real(c))
+    bad, _, key = judge(c, run_real_full(c))
     if bad:
-        print("still fails:", bad)
+        print("still fails:", f"[{key}]", bad)
         return 1
     print("does not fail on the current tree")
     return 0
